@@ -15,13 +15,18 @@
 (***************************************************************************)
 EXTENDS LoCall, TLC, Json
 
-CONSTANTS NSamp, MaxLen, WithSnp, EmitReplay
+CONSTANTS NSamp, MaxLen, WithSnp, EmitReplay, KK
 VARIABLES anc, pos, len, dup, car, snp, phase
 vars == <<anc, pos, len, dup, car, snp, phase>>
 
-K == 5
-Ancestors == { <<84,67,84,71,84,67,84,84,67,67,65,67,71,67,84,67,65,84,65,67,84,84,71,67>>,    \* TCTGTCTTCCACGCTCATACTTGC
-               <<84,65,65,67,67,65,67,65,65,84,65,71,67,71,65,65,71,84,67,65,71,65,67,65>> }  \* TAACCACAATAGCGAAGTCAGACA
+\* k = 5 with two 24-base ancestors (conformance of the model), or k = 11 - inside C18's stated domain - with a 52-base
+\* ancestor whose 10-mers are unique on both strands
+K == KK
+Ancestors == IF KK = 5
+             THEN { <<84,67,84,71,84,67,84,84,67,67,65,67,71,67,84,67,65,84,65,67,84,84,71,67>>,    \* TCTGTCTTCCACGCTCATACTTGC
+                    <<84,65,65,67,67,65,67,65,65,84,65,71,67,71,65,65,71,84,67,65,71,65,67,65>> }  \* TAACCACAATAGCGAAGTCAGACA
+             ELSE { <<84,84,84,67,67,84,67,65,84,71,67,65,65,84,84,67,65,65,65,65,67,67,65,84,71,84,67,67,71,84,65,65,84,71,84,65,71,71,67,71,65,65,65,84,65,71,84,65,65,65,67,67>> }
+                  \* TTTCCTCATGCAATTCAAAACCATGTCCGTAATGTAGGCGAAATAGTAAACC
 CarrierSets == (SUBSET (1..NSamp)) \ {{}, 1..NSamp}
 Next4(b) == CASE b = 65 -> 67 [] b = 67 -> 71 [] b = 71 -> 84 [] OTHER -> 65
 
@@ -63,6 +68,7 @@ Traversal ==
             PrintT(<<"REPLAY", ToJson([kind |-> "loentries", k |-> K, samples |-> [s \in 1..NSamp |-> SampleSeq(s)],
                                        entries |-> SetToSeq(EntryNodes(T)), nodes |-> Cardinality(Nodes(T)),
                                        pre |-> FALSE, lone |-> (snp = <<>>), found |-> (call.records # {}),
+                                       anc |-> anc, pos |-> pos, len |-> len, dup |-> dup, car |-> SetToSeq(car),
                                        groups |-> GroupJson(FG), indels |-> GroupJson(FI),
                                        columns |-> call.columns, records |-> RecJson(call.records), panic |-> call.panic])>>))
 =============================================================================
